@@ -23,14 +23,13 @@ class Bar:
         self.sequence.normalise()
 
         # Assert bar has correct capacity
-        if self.sequence.get_sequence_duration_relation() > self.time_signature_numerator * PPQN / (
-                self.time_signature_denominator / 4):
+        capacity = int(self.time_signature_numerator * PPQN * 4 / self.time_signature_denominator)
+        if self.sequence.get_sequence_duration_relation() * PPQN > capacity:
             raise BarException("Bar capacity exceeded")
 
         # Pad bar
-        if self.sequence.get_sequence_duration_relation() < self.time_signature_numerator * PPQN / (
-                self.time_signature_denominator / 4):
-            self.sequence.pad(self.time_signature_numerator * PPQN / (self.time_signature_denominator / 4))
+        if self.sequence.get_sequence_duration_relation() * PPQN < capacity:
+            self.sequence.pad(capacity)
 
         # Assert time signature is consistent
         time_signatures = [msg for msg in self.sequence.messages_rel() if
